@@ -54,6 +54,15 @@ class World:
             dcols[c] = fn(c, R)(u)
         self.data = frames.base_frame(root, self.inData(u), dcols, "geographic_unit_fips")
         self.current = frames.base_frame(root, self.inFeed(u), ccols, "geographic_unit_fips")
+        # a count the feed delivers may be MISSING (NaN) -- for units that are not in the joined table only: __init__ drops the
+        # joined rows without results (policy "drop") or fills them with 0 (policy "zero"), the feed frame itself keeps them
+        from pyvc.values import V as _V
+
+        for e in estimands:
+            miss = fn(f"feed_count_missing_{e}", B)(u)
+            h.forall_rows(root, z3.Implies(self.inData(u), z3.Not(miss)))
+            c = self.current.cols[f"results_{e}"]
+            self.current.cols[f"results_{e}"] = _V(c.t, c.axes, c.series, miss, c.inf, c.meta)
         # the baseline table as __init__ keeps it: a superset of the joined table (rows can be dropped from the latter)
         self.inBase = fn("inBaseline", B)
         h.forall_rows(root, z3.Implies(self.inData(u), self.inBase(u)))
